@@ -126,11 +126,5 @@ Definition expected : list (string * string) := [
   ("src/copy.rs::shutdown::unwrap#5", "G each select arm is enabled only when both halves of that kind are present (have_stream / have_frames)");
   ("src/copy.rs::shutdown::unwrap#6", "G each select arm is enabled only when both halves of that kind are present (have_stream / have_frames)");
   ("src/copy.rs::shutdown::unwrap#7", "G each select arm is enabled only when both halves of that kind are present (have_stream / have_frames)");
-  ("src/copy.rs::copy_bidi::unwrap#1", "I process_request sets the connector name before copy_bidi");
-  ("src/copy.rs::copy_bidi::unwrap#2", "R dup()/AsyncFd::new on a live socket: fails only when the process is out of file descriptors (see DESIGN.md, finding D32)");
-  ("src/copy.rs::copy_bidi::unwrap#3", "R dup()/AsyncFd::new on a live socket: fails only when the process is out of file descriptors (see DESIGN.md, finding D32)");
-  ("src/copy.rs::copy_bidi::unwrap#4", "R dup()/AsyncFd::new on a live socket: fails only when the process is out of file descriptors (see DESIGN.md, finding D32)");
-  ("src/copy.rs::copy_bidi::unwrap#5", "R dup()/AsyncFd::new on a live socket: fails only when the process is out of file descriptors (see DESIGN.md, finding D32)");
-  ("src/copy.rs::copy_bidi::unwrap#6", "R dup()/AsyncFd::new on a live socket: fails only when the process is out of file descriptors (see DESIGN.md, finding D32)");
-  ("src/copy.rs::copy_bidi::unwrap#7", "R dup()/AsyncFd::new on a live socket: fails only when the process is out of file descriptors (see DESIGN.md, finding D32)")
+  ("src/copy.rs::copy_bidi::unwrap#1", "I process_request sets the connector name before copy_bidi")
 ].
